@@ -52,6 +52,7 @@ def full_config(rng, nservers=1, nodeid=None, minimal=False, drop=(), tmrnum=Non
     cfg.add(Obj(0x2030, 2, RW, "usr", "U", 2, 0x109, 0x109, "6090031", 7))          # range + user abort
     cfg.add(Obj(0x2030, 3, RW, "usr", "U", 0, 0, 0, 0, 7))                          # size 0
     cfg.add(Obj(0x2030, 4, RW, "usr", "U", 6, 0, 0, 0, 7))                          # size 6
+    cfg.add(Obj(0x2030, 5, RW | P, "usr", "U", 3, 0, 0, 0, 0x332211))               # size 3 (UNSIGNED24), PDO-mappable
     if rng.random() < 0.2:
         cfg.add(Obj(0x2031, 0, RW, "usr", "U", 1, 0, 0, rng.choice(["c0de0082", "c0de0081"]), 0))      # a "reset device" object: its write function resets the node
     if "1016" not in drop:
@@ -75,8 +76,8 @@ def full_config(rng, nservers=1, nodeid=None, minimal=False, drop=(), tmrnum=Non
             cfg.add(Obj(0x1010, s, RW, "parastore", "P", g)); cfg.add(Obj(0x1011, s, RW, "pararestore", "P", g))
         cfg.nvm = (off + rng.choice([0, 0, 8]) - rng.choice([0, 0, 0, 1]) if off > 1 else off + 8, None)
     # PDOs --------------------------------------------------------------------
-    mappable_w = [(0x2000, 0, 8), (0x2000, 1, 16), (0x2000, 2, 32), (0x2001, 0, 8), (0x2001, 1, 16), (0x2001, 2, 32), (0x2002, 1, 32), (0x2000, 2, 24), (0x2021, 0, 64), (0x2021, 1, 40)]
-    mappable_r = [(0x2000, 0, 8), (0x2000, 1, 16), (0x2000, 2, 32), (0x2001, 0, 8), (0x2001, 1, 16), (0x2001, 2, 32), (0x2002, 0, 32), (0x2001, 2, 24), (0x2021, 0, 64), (0x2021, 1, 40)]
+    mappable_w = [(0x2000, 0, 8), (0x2000, 1, 16), (0x2000, 2, 32), (0x2001, 0, 8), (0x2001, 1, 16), (0x2001, 2, 32), (0x2002, 1, 32), (0x2000, 2, 24), (0x2021, 0, 64), (0x2021, 1, 40), (0x2030, 5, 24)]
+    mappable_r = [(0x2000, 0, 8), (0x2000, 1, 16), (0x2000, 2, 32), (0x2001, 0, 8), (0x2001, 1, 16), (0x2001, 2, 32), (0x2002, 0, 32), (0x2001, 2, 24), (0x2021, 0, 64), (0x2021, 1, 40), (0x2030, 5, 24)]
     dummies = [(2, 0, 8), (3, 0, 16), (4, 0, 32), (5, 0, 8), (6, 0, 16), (7, 0, 32)]
     if "14xx" not in drop:
         chans = [c for c in range(4) if rng.random() < 0.7] or [rng.randrange(4)]
